@@ -77,7 +77,7 @@ def streams(tier, rng, P, only=None, cases=None):
         cs = []
         n = 3000 if big else 500
         for i in range(n):
-            form = rng.choice(["rest", "note", "noten", "l", "bang_time", "bang_arg", "after_res"])
+            form = rng.choice(["rest", "note", "noten", "l", "bang_time", "bang_arg", "after_res", "nol", "nol"])
             text, s, k = gen_expr(rng, True, layout=(form in ("rest", "note", "l") and rng.random() < 0.4))
             tb = rng.choice([48, 96, 120, 480, 960])
             dtext, ds, _ = gen_expr(rng, True)
@@ -90,6 +90,9 @@ def streams(tier, rng, P, only=None, cases=None):
                 res = [rng.choice([("!4", tb), ("!2", 2 * tb), ("!8", tb // 2), ("!1", 4 * tb)]) for _ in range(k)]
                 src = "TimeBase(%d) l%s l.onNote(%s) %s r%s n60" % (tb, dtext, ",".join(r_[0] for r_ in res), " ".join(rng.choice(["c", "d8", "e"]) for _ in range(k)), text)
                 off = sum(r_[1] for r_ in res)
+            elif form == "nol":
+                # no `l` command at all: the default length is a quarter note of the time base in effect, on the first track too
+                src = "%s r%s n60" % (rng.choice(["TimeBase(%d)", "TimeBase=%d", "TIMEBASE(%d)", "TimeBase(96) TimeBase(%d)"]) % tb, text); ds = None
             elif form == "l": src = "TimeBase(%d) l%s r n60" % (tb, text); ds = None
             elif form == "bang_time": src = "TimeBase(%d) TIME(!%s) n60" % (tb, text); ds = "bang"
             else: src = "TimeBase(%d) TIME=!%s; n60" % (tb, text); ds = "bang"
